@@ -36,7 +36,7 @@ from pyvc import sym as S
 from pyvc import native
 from pyvc.repo import Repo
 from pyvc.symexec import Executor, State, Obligation, LoopSpec, Native
-from pyvc.sym import VCError
+from pyvc.sym import VCError, SymObject
 
 MOD = 'pysph.sph.wc.linalg'
 PYX = 'pysph/base/linalg3.pyx'
@@ -60,7 +60,7 @@ def tasks(tier):
         out.append('helpers:%d' % n)
         for nb in (1, 2, 3):
             out.append('gj:%d:%d' % (n, nb))
-    out += ['gjwit', 'linalg3', 'tql2', 'callsites', 'canary']
+    out += ['gjwit', 'linalg3', 'tql2', 'callsites', 'systems', 'canary']
     out += ['tred2:%d' % k for k in range(TRED2_PATHS)]
     out += ['eigen_bounded']
     return out
@@ -354,6 +354,123 @@ def task_callsites(ctx, repo, m):
     ctx.prove('callsites.every_call_meets_the_helper_precondition', obs)
 
 
+# ------------------------------------------------ systems handed to gj_solve
+def task_systems(ctx, repo, m):
+    """kernel_correction.py builds its augmented matrices by hand.  For
+    dim = 1..3: what GradientCorrection.loop / MixedGradientCorrection.loop
+    hand to gj_solve is [M | b] in the helper's layout (row i at (n+1)*i),
+    with M[i][j] the moment matrix as its writer stores it
+    (d_m_mat[9*d_idx + 3*i + j], L_a = M^-1 of the class docstring) and b the
+    (mixed-corrected) kernel gradient; when the result is accepted DWIJ
+    becomes the solution, otherwise DWIJ is left alone."""
+    um = repo.module('pysph.sph.wc.kernel_correction')
+    W = um.path
+    obs = []
+    for cls in ('GradientCorrection', 'MixedGradientCorrection'):
+        fn = um.methods(cls)['loop']
+        ctx.function(um, fn, cls + '.loop')
+        for dim in (1, 2, 3):
+            nt = dim + 1
+            d_idx = 2
+            mm = [z3.Real('m_%d' % q) for q in range(9 * 4)]
+            dw = [z3.Real('DWIJ_%d' % q) for q in range(3)]
+            gam = [z3.Real('gam_%d' % q) for q in range(3 * 4)]
+            cw = [z3.Real('cw_%d' % q) for q in range(4)]
+            sol = [z3.Real('sol_%d' % q) for q in range(3)]
+            seen = []
+
+            def gj(e, s_, a, k, n_, seen=seen, sol=sol):
+                seen.append((list(a[0]), a[1], a[2]))
+                for q in range(len(a[3])):
+                    a[3][q] = sol[q]
+                return Fraction(0)
+            obj = SymObject(cls, dict(dim=dim, tol=z3.Real('tol')), 'self')
+            obj.module = um.name
+            ex = Executor(repo, um, qualname=cls + '.loop',
+                          definedness='assume', merge=False, prune=False,
+                          externals={'gj_solve': gj})
+            args = dict(self=obj, d_idx=d_idx, d_m_mat=list(mm),
+                        DWIJ=list(dw), HIJ=z3.Real('HIJ'))
+            if cls.startswith('Mixed'):
+                args.update(d_dw_gamma=list(gam), d_cwij=list(cw))
+            try:
+                outs = ex.exec_function(fn, args, State(pc=[
+                    z3.Real('HIJ') > 0, cw[d_idx] > 0]))
+            except VCError as e:
+                ctx.outside('systems.%s.dim%d' % (cls, dim), str(e))
+                continue
+            tag = 'systems.%s.dim%d' % (cls, dim)
+            ok = len(seen) >= 1 and all(s_[1] == dim and s_[2] == 1
+                                        for s_ in seen)
+            obs.append(Obligation(tag + '.one_system_of_size_dim', [],
+                                  z3.BoolVal(bool(ok)), W))
+            if not ok:
+                continue
+            temp = seen[0][0]
+            for i in range(dim):
+                for j in range(dim):
+                    obs.append(Obligation(
+                        '%s.M_%d_%d' % (tag, i, j), [], S.to_z3(S.cmp(
+                            '==', temp[nt * i + j],
+                            mm[9 * d_idx + 3 * i + j])), W))
+                b_i = dw[i] if not cls.startswith('Mixed') else \
+                    (dw[i] - gam[3 * d_idx + i]) / cw[d_idx]
+                obs.append(Obligation('%s.b_%d' % (tag, i), [cw[d_idx] > 0],
+                                      S.to_z3(S.cmp('==', temp[nt * i + dim],
+                                                    b_i)), W))
+            # outcome: DWIJ is the solution or untouched
+            for q, o in enumerate(outs):
+                fin = o.state.env['DWIJ']
+                took = z3.And(*[S.to_z3(S.cmp('==', fin[i], sol[i]))
+                                for i in range(dim)])
+                kept = z3.And(*[S.to_z3(S.cmp('==', fin[i], dw[i]))
+                                for i in range(dim)])
+                rest = z3.And(*[S.to_z3(S.cmp('==', fin[i], dw[i]))
+                                for i in range(dim, 3)]) if dim < 3 else \
+                    z3.BoolVal(True)
+                obs.append(Obligation('%s.outcome.%d' % (tag, q), o.pc,
+                                      z3.And(z3.Or(took, kept), rest), W))
+    def rp(model, ob):
+        script = r"""
+import json, sys, importlib.util
+import numpy as np
+d = json.load(sys.stdin)
+spec = importlib.util.spec_from_file_location('kc_ut', d['root'] + '/pysph/sph/wc/kernel_correction.py')
+mod = importlib.util.module_from_spec(spec); spec.loader.exec_module(mod)
+rng = np.random.RandomState(4)
+bad = None
+for cls in ('GradientCorrection', 'MixedGradientCorrection'):
+    for dim in (1, 2, 3):
+        eq = getattr(mod, cls)('f', ['f'], dim=dim, tol=1e9)
+        M = rng.uniform(-1, 1, (3, 3)) + 4 * np.eye(3)
+        m_mat = np.zeros(18); m_mat[9:] = M.ravel()
+        dw = rng.uniform(-1, 1, 3); DW = dw.copy()
+        if cls.startswith('Mixed'):
+            gam = rng.uniform(-0.2, 0.2, 6); cw = np.array([1.0, 0.8])
+            eq.loop(1, m_mat, gam, cw, DW, 0.1)
+            b = (dw[:dim] - gam[3:3 + dim]) / cw[1]
+        else:
+            eq.loop(1, m_mat, DW, 0.1)
+            b = dw[:dim]
+        want = np.linalg.solve(M[:dim, :dim], b)
+        if np.abs(DW[:dim] - want).max() > 1e-9:
+            bad = dict(equation=cls, dim=dim, M=M[:dim, :dim].tolist(), b=b.tolist(), corrected_gradient=DW[:dim].tolist(), expected=want.tolist()); break
+    if bad: break
+print(json.dumps(dict(bad=bad)))
+"""
+        from pyvc.repo import REPO_ROOT
+        try:
+            r = native.run_venv(script, dict(root=REPO_ROOT), timeout=600)
+        except Exception as e:
+            return dict(reproduced=False, note=str(e)[-300:])
+        if r.get('bad'):
+            return dict(reproduced=True, how='real loop() on a '
+                        'non-symmetric moment matrix vs numpy.linalg.solve',
+                        **r['bad'])
+        return dict(reproduced=False)
+    ctx.prove('systems.hand_built_augmented_matrices', obs, replay=rp)
+
+
 # -------------------------------------------------------------------- tasks
 def run_task(task, ctx):
     repo = Repo()
@@ -367,6 +484,8 @@ def run_task(task, ctx):
         return task_gjwit(ctx, repo, m)
     if parts[0] == 'callsites':
         return task_callsites(ctx, repo, m)
+    if parts[0] == 'systems':
+        return task_systems(ctx, repo, m)
     if parts[0] == 'linalg3':
         return task_linalg3(ctx, repo)
     if parts[0] == 'tql2':
